@@ -45,7 +45,7 @@ macro_rules
 
 /-- `IsScaled σ d <leaf expression of the re-expressed request> <leaf expression>` for an unfolded leaf -/
 macro "units_leaf " sp:ident : tactic => `(tactic|
-  (simp only [epv_leaf, $sp:ident, mul_zero, zero_mul, zero_div, mul_one, one_mul, add_zero, zero_add, sub_zero, abs_zero]
+  (simp only [epv_leaf, $sp:ident, mul_zero, zero_mul, zero_div, mul_one, one_mul, add_zero, zero_add, sub_zero, abs_zero, neg_zero]
    units_goal))
 
 /-- a path condition of the re-expressed request holds iff it holds for the original one -/
